@@ -42,7 +42,8 @@ fn verif_native_library_witness() {
     check(&["(import (shapes))", "(twice 5)"], "value 10", "a renamed export is visible under its external name");
     check(&["(import (shapes))", "internal-twice"], "error *", "a renamed export is not visible under its internal name");
     check(&["(import (shapes))", "hidden"], "error *", "an unexported definition is not visible");
-    check(&["(define outer-secret 42)", "(import (peek))", "(get-outer)"], "error *", "a library does not see the importer's definitions");
+    check(&["(import (peek))", "(define outer-secret 42)", "(get-outer)"], "error *", "a library does not see the importer's definitions");
+    check(&["(import (peek))", "(get-outer)"], "error *", "a free name of a library is unbound");
     check(&["(import (uses))", "(define (helper) 'importer-helper)", "(call-helper)"], "value library-helper", "redefining a name in the importer does not change the library's own procedures");
     check(&["(import (bad))"], "error *", "exporting a name the library does not define is an error");
     let _ = std::fs::remove_dir_all(&dir);
